@@ -123,6 +123,8 @@ func runC17(r *simrt.Run, tier Tier) Outcome {
 	}
 	cfg := drawStoreCfg(r)
 	cfg.InlineFacts = true
+	// an (empty) temporal store may be configured as well, as the interpreter does
+	withTemporal := r.Bool("c17.temporalstore")
 	nDo := 0
 	for _, rule := range prog.Rules {
 		if rule.Do != nil {
@@ -171,6 +173,9 @@ func runC17(r *simrt.Run, tier Tier) Outcome {
 			inner := NewStore(cfg.Store)
 			store := countingStore{FactStore: inner, created: &created, budget: budget}
 			opts := []engine.EvalOption{engine.WithCreatedFactLimit(L)}
+			if withTemporal {
+				opts = append(opts, engine.WithTemporalStore(factstore.NewTemporalStore()))
+			}
 			if cfg.Determ {
 				opts = append(opts, engine.WithDeterministicOrder())
 			}
@@ -182,7 +187,7 @@ func runC17(r *simrt.Run, tier Tier) Outcome {
 			return
 		}()
 		r.OrderPolicy, r.OrderSeed = simrt.OrderAsc, 0
-		ctx := fmt.Sprintf("limit=%d %s\nprogram (%s):\n%s", L, cfg, map[bool]string{true: "infinite model: " + tmpl, false: "finite model"}[diverges], src)
+		ctx := fmt.Sprintf("limit=%d %s temporal-store-configured=%v\nprogram (%s):\n%s", L, cfg, withTemporal, map[bool]string{true: "infinite model: " + tmpl, false: "finite model"}[diverges], src)
 		if over != nil {
 			return Violation("C17/unbounded-creation", "evaluation created %d facts, more than the bound %d for this limit and program size\n%s", over.n, budget, ctx)
 		}
